@@ -5,6 +5,7 @@
 
 pub mod authdata;
 pub mod psl;
+pub mod taint;
 
 use ciborium::value::Value as Cbor;
 use hmac::{Hmac, Mac};
